@@ -13,6 +13,8 @@ ARGV = list(sys.argv)
 
 def main():
     rec = json.load(open(ARGV[1]))
+    # partition lists depend on the tier the counterexample was found in
+    os.environ['VERIF_TIER_REPLAY'] = rec.get('tier', 'quick')
     repo = os.environ.get('VERIF_REPO', '/repo')
     sys.path.insert(0, repo)
     sys.argv = ['ddsmt', 'in.smt2', 'out.smt2', 'cmd']
